@@ -23,7 +23,8 @@ type Obligation struct {
 	Pos    token.Pos
 	Guard  *Term
 	Cond   *Term
-	NAssum int // assumptions x.assumps[:NAssum] are in force
+	NAssum int // assumptions Assums[:NAssum] are in force
+	Assums []*Term // the assumption list of the function being verified (at emission time)
 	Props  []string
 	Text   string // source text of the clause, if any
 	Frame  *Frame
@@ -55,6 +56,8 @@ type Exec struct {
 	funcsUnderContract map[string]bool
 	errs    []string
 	constGlobalCache map[*ssa.Global]bool
+	recDepth map[string]int
+	recDone  map[*Term]bool
 }
 
 type closureInfo struct {
@@ -91,6 +94,7 @@ type Frame struct {
 	cbArgTypes map[string]types.Type
 	cbRetType types.Type
 	quiet    int
+	specBase *State
 	rets     []*retInfo
 	targetCache map[*Clause][]*Clause
 }
@@ -148,7 +152,7 @@ func (fr *Frame) oblige(kind, label string, pos token.Pos, guard, cond *Term, te
 	} else {
 		x.oblNames["="+base] = 1
 	}
-	o := &Obligation{Name: base, Kind: kind, Func: top.key, Pos: pos, Guard: guard, Cond: cond, NAssum: len(x.assumps), Props: top.props, Text: text, Frame: top}
+	o := &Obligation{Name: base, Kind: kind, Func: top.key, Pos: pos, Guard: guard, Cond: cond, NAssum: len(x.assumps), Assums: x.assumps, Props: top.props, Text: text, Frame: top}
 	x.obls = append(x.obls, o)
 }
 
@@ -234,6 +238,8 @@ func (fr *Frame) unfold() (*unode, []*unode) {
 			for l, i := range iters {
 				if l.Blocks[s] {
 					ni[l] = i
+				} else if _, unrolled := fr.loopUnroll(l); unrolled && l.Tail[s] {
+					ni[l] = i // exit tail of an unrolled loop: keep paths apart
 				}
 			}
 			if l := fr.li.ByHeader[s]; l != nil {
@@ -428,6 +434,8 @@ func (fr *Frame) run(st *State, guard *Term) (results []*Term, out *State, outGu
 		if l := fr.li.ByHeader[n.b]; l != nil {
 			if _, unrolled := fr.loopUnroll(l); !unrolled {
 				fr.enterCutLoop(n, l, s, g, phis)
+			} else if fr.contract != nil && len(fr.contract.LoopInv[l.Ordinal]) > 0 && !fr.spec {
+				fr.unrolledCut(n, l, s, g, phis)
 			}
 		}
 		// instructions
@@ -669,6 +677,40 @@ func (fr *Frame) enterCutLoop(n *unode, l *Loop, s *State, g *Term, phis []*ssa.
 		fr.loopD0[key] = fr.evalClauseAt(dec, s, l, nil)
 	} else {
 		x.note(fmt.Sprintf("termination of loop %d in %s not claimed (no decreases clause)", l.Ordinal, shortKey(fr.key)))
+	}
+}
+
+// unrolledCut: an unrolled loop that also has invariants is cut at every
+// unrolled header copy: the invariant is proved for the state arriving there
+// (iteration number `loopiter` is the concrete copy index), then the loop
+// variables are forgotten and only the invariant is assumed. Each step of the
+// unrolling is thus proved from the invariant alone, with a concrete
+// iteration number (useful for fuel-indexed specification functions).
+func (fr *Frame) unrolledCut(n *unode, l *Loop, s *State, g *Term, phis []*ssa.Phi) {
+	x := fr.x
+	c := x.c
+	j := n.iters[l]
+	extra := map[string]*Term{"loopiter": c.BV(uint64(j), 64)}
+	invs := fr.contract.LoopInv[l.Ordinal]
+	kind := "invariant-init"
+	if j > 0 {
+		kind = "invariant-preserve"
+	}
+	for i, inv := range invs {
+		t := fr.evalClauseAt(inv, s, l, extra)
+		fr.oblige(kind, fmt.Sprintf("%s.iter%d", loopLabel(l, inv, i), j), inv.Pos, g, t, inv.Text)
+	}
+	pre := s.clone()
+	for _, phi := range phis {
+		if v := s.regs[phi]; v.isLit() {
+			continue // concrete loop counter
+		}
+		s.regs[phi] = x.freshOf(fmt.Sprintf("loop_%s_it%d", phi.Comment, j), phi.Type())
+		x.assumeWF(g, s.regs[phi], phi.Type(), s)
+	}
+	fr.havocTargets(s, pre, fr.loopWriteSet(l), g)
+	for _, inv := range invs {
+		x.assume(g, fr.evalClauseAt(inv, s, l, extra))
 	}
 }
 
